@@ -9493,7 +9493,8 @@ bool SoPlexBase<R>::loadSettingsFile(const char* filename)
    SPX_MSG_INFO1(spxout, spxout << "Loading settings file <" << filename << "> . . .\n");
 
    // open file
-   spxifstream file(filename);
+   spxifstream file;
+   spxOpenInputFile(file, filename);
 
    if(!file)
    {
